@@ -103,6 +103,10 @@ impl FixtureDatabase {
                     "Failed to parse Python file {:?}: {} - keeping previous data",
                     file_path, e
                 );
+                // The kept data includes the imports of the last valid version: have its tree
+                // at hand (if it was dropped when the document was closed, the file still
+                // holds that version now - it may not after the next save)
+                let _ = self.get_parsed_ast_or_last_valid(&file_path, content);
                 return;
             }
         };
